@@ -243,8 +243,11 @@ def _dhcp(rec):
   out += chaddr + sname + file_ + b"\x63\x82\x53\x63"
   for o in rec.get("opts", []):
     v = dhcp_option_bytes(o)
-    assert len(v) < 256
-    out += bytes([o["code"], len(v)]) + v
+    if len(v) <= 255:
+      out += bytes([o["code"], len(v)]) + v
+    else:                                 # RFC 3396: a long option is split into consecutive instances of the same code
+      for i in range(0, len(v), 255):
+        out += bytes([o["code"], len(v[i:i + 255])]) + v[i:i + 255]
   out += b"\xff"
   return out
 
@@ -550,6 +553,7 @@ class Dissection(object):
     self.frame = frame
     self.layers = []       # {"p": proto, "off": int, "end": int, "f": {name: (off, size)}}
     self.checks = []       # {"name", "off", "size", "got", "want"}
+    self.slots = []        # (container, off, size): option / TLV / record slots inside variable-length areas
     self.payload = None    # (off, end) of innermost opaque bytes
     self.error = None
 
@@ -688,6 +692,17 @@ def _d_ipv4(d, off, end, ctx):
   l["end"] = off + ihl * 4
   if ihl > 5:
     l["f"]["opts"] = (off + 20, ihl * 4 - 20)
+    oo, oe = off + 20, off + ihl * 4
+    while oo < oe:
+      if b[oo] in (0, 1):
+        d.slots.append(("ip4opt", oo, 1))
+        oo += 1
+        continue
+      if oo + 2 > oe or b[oo + 1] < 2 or oo + b[oo + 1] > oe:
+        d.slots.append(("ip4opt", oo, oe - oo))
+        break
+      d.slots.append(("ip4opt", oo, b[oo + 1]))
+      oo += b[oo + 1]
   tot = _u16(b, off + 2)
   if not ctx.get("embedded"):
     d.check("ipv4.totlen", off + 2, 2, end - off)
@@ -745,6 +760,7 @@ def _d_ipv6(d, off, end, ctx):
     if nh == 44:
       _need(b, o, 8, pend, "ipv6 fragment header")
       e = d.layer("ipv6.frag", o, o + 8)
+      d.slots.append(("ext6", o, 8))
       _flds(e, o, ("nh", 1), ("res", 1), ("fragword", 2), ("ident", 4))
       if _u16(b, o + 2) & 0xfff8:
         frag = True
@@ -754,6 +770,7 @@ def _d_ipv6(d, off, end, ctx):
       ln = (b[o + 1] + 1) * 8
       _need(b, o, ln, pend, "ipv6 extension header body")
       e = d.layer("ipv6.ext%d" % nh, o, o + ln)
+      d.slots.append(("ext6", o, ln))
       _flds(e, o, ("nh", 1), ("len", 1), ("body", ln - 2))
       nh, o = b[o], o + ln
     n += 1
@@ -832,10 +849,12 @@ def _d_tcp(d, off, end, ctx):
   while o < oe:
     kind = b[o]
     if kind == 0:
+      d.slots.append(("tcpopt", o, oe - o))
       if any(b[o:oe]):
         d.checks.append({"name": "tcp.opt-padding", "off": o, "size": oe - o, "got": b[o:oe].hex(), "want": "zeros after EOL"})
       break
     if kind == 1:
+      d.slots.append(("tcpopt", o, 1))
       o += 1
       continue
     if o + 2 > oe or b[o + 1] < 2 or o + b[o + 1] > oe:
@@ -848,6 +867,7 @@ def _d_tcp(d, off, end, ctx):
     elif kind == 5:
       d.check("tcp.opt5-len", o + 1, 1, 2 + 8 * ((b[o + 1] - 2) // 8))
     l["f"]["opt%d_%d" % (k, kind)] = (o, b[o + 1])
+    d.slots.append(("tcpopt", o, b[o + 1]))
     o += b[o + 1]
     k += 1
   seg = bytearray(b[off:end])
@@ -906,6 +926,7 @@ def _d_nd_options(d, o, end):
     if want is not None:
       d.check("nd.opt%d-len" % b[o], o + 1, 1, want)
     d.layers[-1]["f"]["opt%d_%d" % (k, b[o])] = (o, ln)
+    d.slots.append(("ndopt", o, ln))
     o += ln
     k += 1
   d.layers[-1]["end"] = o
@@ -984,6 +1005,7 @@ def _d_dhcp(d, off, end, ctx):
       d.error = "dhcp option length"
       return
     l["f"]["opt%d_%d" % (k, code)] = (o, 2 + b[o + 1])
+    d.slots.append(("dhcpopt", o, 2 + b[o + 1]))
     o += 2 + b[o + 1]
     k += 1
   l["end"] = o
@@ -1057,6 +1079,7 @@ def _d_lldp(d, off, end, ctx):
     ty, ln = tl >> 9, tl & 0x1ff
     _need(b, o + 2, ln, end, "lldp tlv value")
     l["f"]["tlv%d_%d" % (k, ty)] = (o, 2 + ln)
+    d.slots.append(("lldptlv", o, 2 + ln))
     want = {0: 0, 3: 2, 7: 4}.get(ty)
     if want is not None:
       d.checks.append({"name": "lldp.tlv%d-len" % ty, "off": o, "size": 2, "got": ln, "want": want})
@@ -1134,6 +1157,7 @@ def _d_gre(d, off, end, ctx):
       sl = b[o + 3]
       _need(b, o + 4, sl, end, "gre sre data")
       l["f"]["sre%d" % k] = (o, 4 + sl)
+      d.slots.append(("gresre", o, 4 + sl))
       o += 4 + sl
       k += 1
       if sl == 0:
@@ -1171,6 +1195,7 @@ def _d_igmp(d, off, end, ctx):
       auxl, ns = b[o + 1] * 4, _u16(b, o + 2)
       _need(b, o, 8 + 4 * ns + auxl, end, "igmp group record body")
       l["f"]["rec%d" % i] = (o, 8 + 4 * ns + auxl)
+      d.slots.append(("igmprec", o, 8 + 4 * ns + auxl))
       l["f"]["rec%d_nsrc" % i] = (o + 2, 2)
       o += 8 + 4 * ns + auxl
     d.payload = (o, end)
@@ -1306,6 +1331,7 @@ def catalog(n=6):
     ("ipv4-udp", [_eth(), _ip4(), {"t": "udp"}, P]),
     ("ipv4-tcp", [_eth(), _ip4(), {"t": "tcp"}, P]),
     ("ipv4-tcp-opts", [_eth(), _ip4(), {"t": "tcp", "opts": tcp_all}, P]),
+    ("ipv4-tcp-synopts", [_eth(), _ip4(), {"t": "tcp", "opts": [{"k": "mss", "v": 1460}, {"k": "nop"}, {"k": "ws", "v": 7}, {"k": "nop"}, {"k": "nop"}, {"k": "sackperm"}]}, P]),
     ("ipv4-tcp-sack", [_eth(), _ip4(), {"t": "tcp", "flags": 0x10, "opts": [{"k": "nop"}, {"k": "nop"}, {"k": "sack", "v": [[100, 200]]}]}, P]),
     ("ipv4-tcp-unkopt", [_eth(), _ip4(), {"t": "tcp", "opts": [{"k": "unk", "type": 254, "data": b"\x01\x02"}]}, P]),
     ("ipv4-tcp-mpcap", [_eth(), _ip4(), {"t": "tcp", "opts": [{"k": "mpcap", "flags": 0x81, "skey": b"12345678"}]}, P]),
@@ -1378,6 +1404,10 @@ _LONG = ("ipv4-tcp-opts", "ipv4-tcp-unkopt", "ipv4-tcp-sack", "ipv4-opts-raw", "
          "snap-ipv4-udp", "ipv4-icmp-echo", "ipv6-icmp6-echo")
 
 
+_EMPTY = ("ipv4-tcp-opts", "ipv4-tcp-synopts", "ipv4-tcp-unkopt", "ipv4-tcp-mpcap", "ipv4-tcp-mpjoin", "ipv4-tcp-mpdss", "ipv4-tcp-sack",
+          "ipv6-tcp", "ipv4-opts-raw", "ipv6-hbh-udp", "ipv4-udp")
+
+
 def corpus():
   """[(name, frame)]: the catalog built by the reference builder, with an even and an odd payload; a few entries
   also with a 41-byte payload so that a corrupted length field can point into payload that exists."""
@@ -1390,4 +1420,7 @@ def corpus():
   for name, spec in catalog(41):
     if name in _LONG:
       out.append(("%s-41" % name, build(spec)))
+  for name, spec in catalog(0):
+    if name in _EMPTY:
+      out.append(("%s-0" % name, build(spec)))
   return out
